@@ -5,7 +5,7 @@
 From Coq Require Import List NArith ZArith QArith Qcanon Bool Lia.
 From ACB Require Import Base.Outcome Base.QcExtra Base.Arith Model.Tx Model.Ledger Model.Sfl
      Model.DeltaList Model.App Model.Summary Proofs.Tactics Proofs.C15Full Proofs.C04Sum
-     Proofs.RenderProps Proofs.C10Scan Proofs.C04Inv Proofs.C05NoPanic Proofs.C10Zero.
+     Proofs.RenderProps Proofs.C10Scan Proofs.C04Inv Proofs.C05NoPanic Proofs.C10Zero Proofs.AllAfter.
 Import ListNotations.
 Local Open Scope Qc_scope.
 
@@ -29,7 +29,7 @@ Lemma set_latest_srel regof s1 s2 af v s1' :
 Proof.
   intros (Ha & Hl & Ho1 & Ho2) H.
   assert (E2 : exists s2', set_latest exact s2 af v = Ok s2').
-  { revert H. unfold set_latest. cbn [a_add a_sub exact bind]. rewrite !obs_fst, (Ho1 af), Ha.
+  { revert H. unfold set_latest. rewrite !all_after_exact. cbn [bind]. rewrite !obs_fst, (Ho1 af), Ha.
     destruct (negb (Bool.eqb _ _)); [discriminate|]. destruct (negb (Qceqb _ _)); [discriminate|].
     intros _. eexists. reflexivity. }
   destruct E2 as [s2' E2]. exists s2'. split; [exact E2|].
